@@ -41,9 +41,21 @@ def abandoned_cases(rng, n):
     return out
 
 
+def backref_cases(quick):
+    """a back-reference matches exactly the bound text: same bytes, same case, same length - on texts that differ from the binding in case, in one byte, in length"""
+    progs = ["find all (letter = x) x", "find all (at least 1 letter = x) '-' x", "find all (any any = x) x", "find all ((letter = x) x 'b') or (letter letter)",
+             "find all (at least 1 (in 'a', 'A', 'b') = x) '-' x '.'", "find all @/([a-zA-Z]+)-\\1/", "find all @/(?<w>[aAbB])\\k<w>/", "find all caseless 'a' = x x",
+             "replace all (letter = x) x with x", "find all (maybe letter = x) '-' x '-'"]
+    texts = ["aA", "Aa", "aa", "AA", "ab-ab", "ab-AB", "ab-aB", "aB-aB", "AB-ab.", "ab-ab.", "ab-abb.", "abb-ab.", "aAb", "aab", "aAaa", "--", "a-a-", "a-A-", "a-b-", "ab-ab ab-Ab"]
+    if not quick:
+        import itertools
+        texts += ["".join(t) for n in range(1, 5) for t in itertools.product("aAb-", repeat=n)]
+    return [{"src": p, "texts": texts} for p in progs]
+
+
 def run(ctx):
     quick = ctx.quick()
-    extra = abandoned_cases(ctx.rng, 300 if quick else 4000)
+    extra = abandoned_cases(ctx.rng, 300 if quick else 4000) + backref_cases(quick)
     cases, gres, dis, stats = run_generated(ctx, 400 if quick else 8000, extra=extra,
                                             gen_kwargs=dict(allow_whole=False))
     # measured: template cases (binding on an abandoned path by construction) that produced a match
@@ -53,7 +65,7 @@ def run(ctx):
             nb += sum(1 for m in (g.get("matches_list") or []) if m != "()")
     ctx.coverage["abandoned_binding_template_runs_with_match"] = nb
     ctx.coverage["rule"] = ("templates that bind inside an alternative / optional group / loop iteration / call / stored pattern and then fail, on texts that "
-                            "force the failure, plus grammar-generated programs with captures; variables compared as sorted maps at all three layers and against "
+                            "force the failure, back-reference templates on texts that differ from the binding in case, one byte or length, plus grammar-generated programs with captures; variables compared as sorted maps at all three layers and against "
                             "the specification's bindings; non-trivial = distinct (program,text) with a match")
 
 
